@@ -14,6 +14,13 @@ CUSTOM_TEXT = {
     'mix': ('mix(r, A, rho)', 'A*exp(-r/rho) - inner(r, 3.0)'),
     'inner': ('inner(r, C)', 'C/r^6 + as.morse(r, 1.8, 2.0, 0.1)'),
     'qq': ('qq(r, qi, qj)', '14.4*qi*qj/r + 50.0*exp(-r/0.3)'),
+    # calls another formula with arguments that differ from its own same-named parameters (r, A), before and after using them
+    'sf': ('sf(r, A, rho)', 'inner2(1.5, rho) + A*exp(-r/rho) + inner2(r, A) - (r - 1.5)*inner2(2.5, 0.25)'),
+    'inner2': ('inner2(r, A)', 'A/r^2'),
+    # several exprtk statements separated by ' ; ' (the value is that of the last one)
+    'ms': ('ms(r, A, rho)', 'var x := -r/rho ; var e := exp(x) ; A*e + 1/r'),
+    # spellings of calls to built-in forms: blank before the bracket, upper case
+    'wb': ('wb(r, A)', 'as.buck (r, A, 0.3, 1.0) + AS.Morse(r, 1.8, 2.0, 0.1)'),
 }
 
 
@@ -29,6 +36,22 @@ def _c_mix(r, A, rho):
     return A * jexp(-r / rho) - _c_inner(r, 3.0)
 
 
+def _c_inner2(r, A):
+    return A / (r * r)
+
+
+def _c_sf(r, A, rho):
+    return _c_inner2(Jet(1.5), rho) + A * jexp(-r / rho) + _c_inner2(r, A) - (r - 1.5) * _c_inner2(Jet(2.5), 0.25)
+
+
+def _c_ms(r, A, rho):
+    return A * jexp(-r / rho) + 1.0 / r
+
+
+def _c_wb(r, A):
+    return F.buck(r, A, 0.3, 1.0) + F.morse(r, 1.8, 2.0, 0.1)
+
+
 TABLE_DATA = {
     'tf': ([0.0, 0.4, 0.9, 1.5, 2.2, 3.0, 4.1, 5.5, 7.0, 13.0],
            [9.0, 5.5, 2.0, -0.7, -1.3, -0.9, -0.4, -0.15, -0.05, 0.0]),
@@ -40,7 +63,7 @@ _env = None
 def env():
     global _env
     if _env is None:
-        _env = X.Env(custom={'mix': _c_mix, 'inner': _c_inner, 'qq': _c_qq, 'py_intfirst': _py_g, 'py_plain': _py_f, 'py_deriv': _py_f, 'py_both': _py_f},
+        _env = X.Env(custom={'mix': _c_mix, 'inner': _c_inner, 'qq': _c_qq, 'sf': _c_sf, 'inner2': _c_inner2, 'ms': _c_ms, 'wb': _c_wb, 'py_intfirst': _py_g, 'py_plain': _py_f, 'py_deriv': _py_f, 'py_both': _py_f},
                      tables={k: X.RefTable(*v) for k, v in TABLE_DATA.items()})
     return _env
 
@@ -87,6 +110,9 @@ def library():
         ('custom', D({"custom": "mix", "params": [700.0, 0.4]}), {'numeric'}),
         ('custom_in_sum', D(mod('sum', {"custom": "inner", "params": [12.0]}, form('bornmayer', 850.0, 0.35))), {'numeric'}),
         ('table', D({"table": "tf"}), set()),
+        ('custom_shared', D({"custom": "sf", "params": [700.0, 0.4]}), {'numeric'}),
+        ('custom_ms', D({"custom": "ms", "params": [650.0, 0.35]}), {'numeric'}),
+        ('custom_spell', D({"custom": "wb", "params": [900.0]}), {'numeric'}),
         # hash(-1) == hash(-2) in CPython: parameter lists that differ only by -1 <-> -2 (formal charges of F and O) catch caches keyed by hash
         ('qq_m1', D({"custom": "qq", "params": [2, -1]}), {'numeric'}),
         ('qq_m2', D({"custom": "qq", "params": [2, -2]}), {'numeric'}),
@@ -163,6 +189,83 @@ def py_callables():
 PY_BREAKPOINTS = {'py_intfirst': [PY_RC]}
 
 
+# ------------------------------------------------------------------------------------------ potential OBJECTS (not callables)
+OBJ_RC = 7.77
+SI_H = 1e-16
+
+
+def _obj_sub_ref(r):
+    r = r if isinstance(r, Jet) else Jet.var(r)
+    return _py_f(r) - _py_f(Jet(OBJ_RC)).v
+
+
+def _obj_duck_ref(r):
+    r = r if isinstance(r, Jet) else Jet.var(r)
+    return 2.5 * jexp(-1.1 * r) + 0.3 / r
+
+
+def _obj_si_ref(r):
+    # Born-Mayer + dispersion in SI units (J, m)
+    r = r if isinstance(r, Jet) else Jet.var(r)
+    return 1.6e-16 * jexp(-r / 3e-11) - 5e-78 / r.ipow(6)
+
+
+def _obj_sub0_ref(r):
+    r = r if isinstance(r, Jet) else Jet.var(r)
+    f = lambda x: 4.0 * jexp(-1.3 * x) + 0.05 * x * x  # noqa
+    return f(r) - f(Jet(OBJ_RC)).v
+
+
+def _obj_duck0_ref(r):
+    r = r if isinstance(r, Jet) else Jet.var(r)
+    return 2.5 * jexp(-1.1 * r) + 0.1 * r
+
+
+def py_objects():
+    """name -> dict(make=(a, b) -> object handed to the tabulation classes, ref=Jet function, numeric, h)
+    obj_sub  : subclass of Potential that overrides energy() (energy shifted to zero at OBJ_RC), force() inherited
+    obj_duck : plain object offering speciesA, speciesB, energy(r), force(r)
+    obj_h    : Potential(..., h=1e-3): the documented step of the numerical derivative chosen by the caller
+    obj_si   : SI-unit potential (r ~ 1e-10 m) with h=1e-16 - the default step is 10^4 x larger than r itself"""
+    import atsim.potentials as ap
+    pyc = py_callables()
+
+    class Shifted(ap.Potential):
+        def energy(self, r):
+            return super(Shifted, self).energy(r) - self.potentialFunction(OBJ_RC)
+
+    class Duck(object):
+        def __init__(self, a, b):
+            self.speciesA, self.speciesB = a, b
+
+        def energy(self, r):
+            return 2.5 * math.exp(-1.1 * r) + 0.3 / r
+
+        def force(self, r):
+            return 2.75 * math.exp(-1.1 * r) + 0.3 / (r * r)
+
+    class Duck0(Duck):
+        def energy(self, r):
+            return 2.5 * math.exp(-1.1 * r) + 0.1 * r
+
+        def force(self, r):
+            return 2.75 * math.exp(-1.1 * r) - 0.1
+
+    def reg0():
+        def f(r):
+            return 4.0 * math.exp(-1.3 * r) + 0.05 * r * r
+        f.deriv = lambda r: -5.2 * math.exp(-1.3 * r) + 0.1 * r
+        return f
+
+    def si(r):
+        return 1.6e-16 * math.exp(-r / 3e-11) - 5e-78 / r ** 6
+    return {'obj_sub': dict(make=lambda a, b: Shifted(a, b, pyc['py_deriv'][0]()), ref=_obj_sub_ref, numeric=False, h=H),
+            'obj_duck': dict(make=lambda a, b: Duck(a, b), ref=_obj_duck_ref, numeric=False, h=H),
+            'obj_sub0': dict(make=lambda a, b: Shifted(a, b, reg0()), ref=_obj_sub0_ref, numeric=False, h=H),
+            'obj_duck0': dict(make=lambda a, b: Duck0(a, b), ref=_obj_duck0_ref, numeric=False, h=H),
+            'obj_si': dict(make=lambda a, b: ap.Potential(a, b, si, h=SI_H), ref=_obj_si_ref, numeric=True, h=SI_H)}
+
+
 # ------------------------------------------------------------------------------------------ numeric-derivative allowance
 def err_scale(d, r, e):
     """magnitude M such that a first derivative obtained with one numerical-difference level somewhere in the
@@ -206,8 +309,8 @@ def third_deriv(fn, r, delta=1e-4):
     return abs(fn(r + delta).d2 - fn(r - delta).d2) / (2 * delta)
 
 
-def num_allow(M, f3=0.0, K=50.0):
-    return K * (EPS * M / H) + K * (H * H / 24.0) * f3
+def num_allow(M, f3=0.0, K=50.0, h=H):
+    return K * (EPS * M / h) + K * (h * h / 24.0) * f3
 
 
 # ------------------------------------------------------------------------------------------ ini rendering
@@ -233,6 +336,8 @@ def needs(defns):
         walk(d)
     if 'mix' in cust:
         cust.add('inner')
+    if 'sf' in cust:
+        cust.add('inner2')
     return cust, tabs
 
 
